@@ -102,6 +102,13 @@ def parseHist (script : String) : Option (List History.Op) :=
         match findCipher c, parseHex k with
         | some m, some key => some (.construct id m key :: ops)
         | _, _ => none
+      | ["r", id, fam, route, k] =>
+        -- an instance reached through a conversion / clone route is, by the C12 theorems, the freshly keyed cipher of
+        -- the route's target type: `c.*` the combined type, `e.*` the encrypt-only, `d.*` the decrypt-only one
+        let target := if route.startsWith "c." then fam else if route.startsWith "e." then fam ++ "Enc" else fam ++ "Dec"
+        match findCipher target, parseHex k with
+        | some m, some key => some (.construct id m key :: ops)
+        | _, _ => none
       | ["c", dst, src] => some (.clone dst src :: ops)
       | ["x", id] => some (.drop id :: ops)
       | [k, id, d] =>
